@@ -338,6 +338,29 @@ class Program:
                             tree.body.insert(0, copy.deepcopy(imp_of[x]))
                     ast.fix_missing_locations(tree)
 
+        # a new *private* method whose every use (all of them in other modules) has been folded away is not a unit any more: as with helpers folded inside their own module, the
+        # definition goes (a public one stays: it can be called from outside, and `folded_kept` tells the context-dependent rules where it was judged)
+        for name, d in defs.items():
+            if len(d) != 1 or not d[0][3] or not name.startswith('_') or (name.startswith('__') and name.endswith('__')) or (d[0][0], d[0][1]) in known:
+                continue
+            hrel, qn, node, cls = d[0]
+            if not any(f'{hrel}:{qn} folded into its' in ln and 'the definition stays in its own module' in ln for ln in self.fold_log):
+                continue
+            still_used = False
+            for rel, _src, tree in parsed:
+                for n in ast.walk(tree):
+                    if isinstance(n, ast.Attribute) and n.attr == name:
+                        still_used = True
+                    elif isinstance(n, ast.Name) and n.id == name and isinstance(n.ctx, ast.Load):
+                        still_used = True
+            if still_used:
+                continue
+            htree = next(t for r, _s, t in parsed if r == hrel)
+            for st in htree.body:
+                if isinstance(st, ast.ClassDef) and st.name == cls and any(m is node for m in st.body):
+                    st.body[:] = [m for m in st.body if m is not node] or [ast.copy_location(ast.Pass(), node)]
+                    self.fold_log.append(f'{hrel}:{qn} has no use left after folding: the definition is dropped')
+
     def _load(self) -> None:
         h = hashlib.sha256()
         parsed: list[tuple[str, str, ast.Module]] = []
@@ -367,6 +390,16 @@ class Program:
         for rel, src, tree in parsed:
             self.fold_log.extend(simplify_after_folding(tree, rel, self._known_locals))
             self.fold_log.extend(propagate_new_aliases(tree, rel, self._known_locals))
+        # a helper that was reached only through a local alias (`step = Bus._helper` ... `await step(x)`) is called by name now: one more round of folding
+        n0 = len(self.fold_log)
+        for rel, src, tree in parsed:
+            self.fold_log.extend(fold_new_helpers(tree, rel, self._known))
+        self._fold_across_modules(parsed)
+        if any(' folded into ' in ln for ln in self.fold_log[n0:]):
+            for rel, src, tree in parsed:
+                self.fold_log.extend(simplify_after_folding(tree, rel, self._known_locals))
+                self.fold_log.extend(propagate_new_aliases(tree, rel, self._known_locals))
+        for rel, src, tree in parsed:
             self.fold_log.extend(normalise_counting_loops(tree, rel))
             set_parents(tree)
             mi = ModuleInfo(rel, src, tree)
